@@ -21,7 +21,8 @@ def probe_steps(rng_seed, cfg, nodes):
                 lines += [line, 'flush', 'quiesce']
         else:
             addr, t, data = gen_feedback(rng, m, cfg, nodes)
-            lines += [up(model.build_msg(addr, 0, t, data)), 'quiesce']
+            # flush as well: feedback can make the library queue a request (e.g. ACCESSORY_GET after a NOTIFY) whose answer changes state
+            lines += [up(model.build_msg(addr, 0, t, data)), 'quiesce', 'flush', 'quiesce']
     return lines
 
 def session_lines(rng, kind, cfg_valid_dir, bad_dir, cfgA, nodesA, fi):
@@ -102,8 +103,9 @@ def gen_scenario(ctx, k):
             if rng.random() < 0.3:
                 sc.add('mark dbl_stop', 'stop', 'mark dbl_stop_end')                # stop while stopped: must do nothing
             sessions.append((kind, exp, fi))
-    # the probe session
-    fi = rng.choice([0, 2])
+    # the probe session: no auto-flush, every step settled, so that it is deterministic (auto-flush timing legitimately changes when
+    # queued requests reach the bus); the sessions before it use every auto-flush setting
+    fi = 0
     probe = ['bus clear'] + cfggen.bus_lines(cfgA, nodesA) + ['bus brackets 1', 'debug 0', 'mark probe', f'start {dA} {fi}', 'quiesce', 'snap p0'] + \
         probe_steps(ctx.seed * 1000 + k, cfgA, nodesA) + ['flush', 'quiesce', 'snap p1', 'stop', 'mark probe_end']
     sc.add(*probe)
@@ -156,7 +158,7 @@ def check_stop_transcripts(ctx, r, cfg, nodes, meta):
                 soft = [k for k, x in enumerate(tx) if x[1] == C('MSG_CS_SET_STATE') and x[2] == b'\x02']
                 off = [k for k, x in enumerate(tx) if x[1] == C('MSG_CS_SET_STATE') and x[2] == b'\x00']
                 # user commands submitted before the stop may still drain from the held queues; the shutdown commands are the all-zero ones
-                drv = [k for k, x in enumerate(tx) if x[1] == C('MSG_CS_DRIVE') and len(x[2]) >= 9 and x[2][3] == 0]
+                drv = [k for k, x in enumerate(tx) if x[1] == C('MSG_CS_DRIVE') and len(x[2]) >= 9 and x[2][3:9] == bytes(6)]
                 other = [x for x in tx if x[1] not in (C('MSG_CS_SET_STATE'), C('MSG_CS_DRIVE'))]
                 exp_drv = sorted((a, bytes([t['addr'][1], t['addr'][0], {14: 0, 28: 2, 126: 3}[t['steps']], 0, 0, 0, 0, 0, 0])) for a in tos for t in cfg['trains'])
                 got_drv = sorted((tx[k][0], tx[k][2]) for k in drv)
@@ -212,7 +214,12 @@ def evaluate(ctx, r, rf, cfg, nodes, sessions, mode, meta):
         for i in idx:
             j = next(k for k in range(i, len(ev)) if ev[k].get('e') == 'mark' and ev[k].get('m') == b)
             seg = ev[i:j]
-            if any(x.get('e') in ('txm', 'thr_create', 'thr_join') for x in seg):
+            # traffic written by the calling thread between call and return of the redundant start/stop (traffic of the receiver or the
+            # auto-flush thread belongs to the running session)
+            ci = next((k for k, x in enumerate(seg) if x.get('e') == 'call'), 0)
+            ri = next((k for k, x in enumerate(seg) if x.get('e') == 'ret'), len(seg))
+            inner = seg[ci:ri + 1]
+            if any(x.get('e') in ('thr_create', 'thr_join') for x in inner) or any(x.get('e') == 'txm' and x.get('t') == 0 for x in inner):
                 ctx.violation('not-idempotent', a, f'{a.replace("dbl_", "")} while {"running" if a == "dbl_start" else "stopped"} produced wire traffic or touched threads', r.scenario, r.flavour, meta)
                 return
             hs = [x.get('heap') for x in seg if x.get('e') in ('call', 'ret') and 'heap' in x]
